@@ -20,3 +20,4 @@ pub mod embedkit;
 pub mod defgen;
 pub mod fssnap;
 pub mod pki_tsa;
+pub mod iokit;
